@@ -41,6 +41,7 @@ import (
 //	mesh-topology:rows-lost:stale-row-of-vanished-proxy-online      lost row none of whose Refs (node/serviceID) is a registered instance any more
 //	mesh-topology:rows-added:refs-ignore-peer-name           added row whose Ref matches both a local proxy and an imported proxy that still has the upstream
 //	kind-service-names:connect-enabled-row-stale-online      lost connect-enabled row, no connect instance of the service exists any more
+//	kind-service-names:row-stale-after-service-renamed       lost typical-kind row of a name no local instance carries any more
 //	peering-secret-uuids:active-secret-added-by-restore      added uuid is the ActiveSecretID of a stored peering-secrets row
 //	checks:ServiceTags:stale-online-copy (also ServiceName)  restored value == the current service row's value
 //	case-folding:<table>                                      the differing values are equal ignoring letter case (or: a Count
@@ -384,6 +385,12 @@ func (c *cutCtx) lostRow(t string, f map[string]string, raw string, add func(sig
 		svc := nested(f["Service"], "Name")
 		if unq(f["Kind"]) == "connect-enabled" && !c.hasConnectInstanceFor(svc, false) {
 			add("kind-service-names:connect-enabled-row-stale-online", desc)
+			return
+		}
+		// a service id re-registered under another service name: ensureServiceTxn upserts the new name's row and
+		// leaves the old name's row behind (only deleteServiceTxn cleans up); restore has nothing to build it from
+		if f["Kind"] == "" && !c.hasInstanceNamed(svc) {
+			add("kind-service-names:row-stale-after-service-renamed", desc)
 			return
 		}
 	}
